@@ -1,8 +1,10 @@
 (* C10 — success is reported iff every problem is proven, under any prover schedule / fault.
-   Statements only; model in Model/Prover.v, proofs in Proofs/ProverOk.v.
+   Statements only; models in Model/Prover.v and Model/VerdictRun.v (run level: option values, the
+   last lines of stdout, the exit status), proofs in Proofs/ProverOk.v and Proofs/VerdictRunOk.v.
    What these statements cannot talk about (OS processes, pipes, the thread pool, the channel, a
    panic that unwinds a worker) is listed in docs/C10.md and tied only by the CLI runs of
-   props/C10.py with a stand-in prover. *)
+   props/C10.py with a stand-in prover (worker deaths are injected through the hook
+   anthem::verif::prover_fault, cargo feature `verif`). *)
 From Coq Require Import List Ascii String Arith NArith Permutation.
 Import ListNotations.
 From Anthem Require Import Base.Fresh Model.Prover Proofs.ProverOk Model.VerdictRun Proofs.VerdictRunOk.
